@@ -27,6 +27,10 @@ Output: `<ret> ;; <receiver state>` with ret = `self` | `new <value>` | `err <Cl
 Overflow classes and the constructor-argument memo (`Model/C05OvProto.lean`):
   `ovf <class> <attr>`                               the class collects extra constructor keywords in `<attr>`
   `sig <f> builtin|object|fixed <k> n…|varkw <k> n…` · `args <f> <k> n…`   `_get_function_args` with its memo
+Where the callbacks come from (`Model/C05Decl.lean`, parsed in `Model/C05Proto.lean`):
+  `pdecl <class> <attr> p|i <n> (<s|p> <-|v|a|A> <decorator id|_> <method id|_>)…`
+       the class bodies of the hierarchy of `<class>` (root first) about the preparer (`p`) / item preparer (`i`) of
+       `<attr>`; the entry of the class table is replaced by `(Decl.bootstrap layers).entry`; answers `ok`
 A class table with an `ovf` line is evaluated by `SpecVerif.C05.Ov.run`, one without by `SpecVerif.C05.run`.
 -/
 open SpecVerif.Py SpecVerif.C05
